@@ -298,11 +298,91 @@ def all_guards(fn):
     return c
 
 
+def flag_locals(fn):
+    """bool locals that only ever get constants (`let mut found = false; .. found = true; break ..; if found {..}`) and are
+    tested by a switch: {local: [(block, stmt idx, value)]} (cached)"""
+    c = getattr(fn, "_flag_locals", None)
+    if c is not None:
+        return c
+    tested = set()
+    for (gb, gi, g) in all_guards(fn):
+        t_ = strip_refs(g.term)
+        if g.kind == "bool" and t_[0] == "var" and isinstance(t_[1], int):
+            tested.add(t_[1])
+    out = {}
+    for l in tested:
+        if fn.locals[l]["ty"] != "bool" or l <= fn.arg_count:
+            continue
+        sites, ok = [], True
+        for d in fn.defs().get(l, []):
+            if d[0] != "assign":
+                ok = False
+                break
+            v = fn.term_of_rvalue(d[3], d[1])
+            if v[0] != "c" or not isinstance(v[1], (int, bool)):
+                ok = False
+                break
+            sites.append((d[1], d[2], bool(v[1])))
+        if ok and sites:
+            out[l] = sites
+    fn._flag_locals = out
+    return out
+
+
+def reach_flags(fn, starts, cut_edges=(), cut_blocks=()):
+    """fn.reach(), but a path carries the values of the constant-only bool flags it has set: the test of a flag whose value
+    is known on the path is followed down the matching edge only.  (Sound: such a flag changes only at its own constant
+    stores.)  Falls back to fn.reach() when the function has no such flag."""
+    flags = flag_locals(fn)
+    if not flags:
+        return fn.reach(starts, cut_edges, cut_blocks)
+    order = sorted(flags)
+    stores = {}
+    for l, sites in flags.items():
+        for (b, i, v) in sites:
+            stores.setdefault(b, []).append((i, l, v))
+    tests = {}
+    for (gb, gi, g) in all_guards(fn):
+        t_ = strip_refs(g.term)
+        if g.kind == "bool" and t_[0] == "var" and t_[1] in flags:
+            tests[(gb, gi)] = (t_[1], bool(g.truth))
+    cut_edges, cut_blocks = set(cut_edges), set(cut_blocks)
+    unknown = tuple(None for _ in order)
+    seen, dq = set(), []
+    for s0 in starts:
+        if s0 not in cut_blocks:
+            seen.add((s0, unknown))
+            dq.append((s0, unknown))
+    while dq:
+        b, st = dq.pop()
+        if b in stores:
+            st = list(st)
+            for (_i, l, v) in sorted(stores[b]):
+                st[order.index(l)] = v
+            st = tuple(st)
+        for i, (s1, _lab) in enumerate(fn.succ(b)):
+            if (b, i) in cut_edges or s1 in cut_blocks:
+                continue
+            tv = tests.get((b, i))
+            if tv is not None:
+                cur = st[order.index(tv[0])]
+                if cur is not None and cur != tv[1]:
+                    continue
+            if (s1, st) not in seen:
+                seen.add((s1, st))
+                dq.append((s1, st))
+    return {b for (b, _st) in seen}
+
+
 def guarded(fn, target, pred, frm=0):
     """True iff every path frm->target crosses a switch edge whose Guard satisfies pred.
-    Returns (bool, matching edges)."""
+    Returns (bool, matching edges).  A way around the edges that exists in the graph only (it would need a constant-only
+    bool flag to be true and false at once) does not count."""
     edges = [(b, i) for (b, i, g) in all_guards(fn) if pred(g)]
-    return fn.unreachable_without(target, edges, frm), edges
+    ok = fn.unreachable_without(target, edges, frm)
+    if not ok and flag_locals(fn):
+        ok = target not in reach_flags(fn, [frm], cut_edges=edges)
+    return ok, edges
 
 
 def g_call(name, truth=None, argpred=None):
@@ -496,17 +576,24 @@ def resolve_bool_temps(fn, cut, fold=None):
         for (gb, gi, g) in all_guards(fn):
             t_ = strip_refs(g.term)
             if g.kind == "bool" and t_[0] == "var" and gb in rs and (gb, gi) not in cut:
-                vals = set()
-                for d in fn.defs().get(t_[1], []):
-                    if d[0] in ("assign", "call") and d[1] in rs:
-                        dv = fn.term_of_rvalue(d[3], d[1]) if d[0] == "assign" else fn.call_term(d[2], d[1])
-                        if dv[0] == "c":
-                            vals.add(bool(dv[1]))
-                        else:
-                            fv = fold(dv) if fold else None      # the caller's substitution may decide the defining term
-                            vals.add(None if fv is None else bool(fv))
-                    elif d[1] in rs:
-                        vals.add(None)
+                def _vals_of(l_, depth_=0):
+                    out_ = set()
+                    for d in fn.defs().get(l_, []):
+                        if d[0] in ("assign", "call") and d[1] in rs:
+                            dv = fn.term_of_rvalue(d[3], d[1]) if d[0] == "assign" else fn.call_term(d[2], d[1])
+                            dvs = strip_refs(dv)
+                            if dv[0] == "c":
+                                out_.add(bool(dv[1]))
+                            elif dvs[0] == "var" and isinstance(dvs[1], int) and depth_ < 3 and fn.locals[dvs[1]]["ty"] == "bool" and dvs[1] > fn.arg_count:
+                                # a copy of another flag (`match (result, may_create) { .. }`: the tuple's field is a copy)
+                                out_ |= _vals_of(dvs[1], depth_ + 1)
+                            else:
+                                fv = fold(dv) if fold else None      # the caller's substitution may decide the defining term
+                                out_.add(None if fv is None else bool(fv))
+                        elif d[1] in rs:
+                            out_.add(None)
+                    return out_
+                vals = _vals_of(t_[1])
                 if len(vals) == 1 and None not in vals and (list(vals)[0] != g.truth):
                     cut.append((gb, gi))
                     grew = True
